@@ -617,6 +617,8 @@ func (s *Service) ListenAndServe(url string, options ...nats.Option) error {
 	nc, err := nats.Connect(url, opts...)
 	if err != nil {
 		s.errorf("Failed to connect to NATS server: %s", err)
+		// The service never started; let it be started again
+		atomic.StoreInt32(&s.state, stateStopped)
 		return err
 	}
 
@@ -657,6 +659,8 @@ func (s *Service) serve(nc Conn) error {
 	// for all the event listeners.
 	err := s.ValidateListeners()
 	if err != nil {
+		// The service never started; let it be started again
+		atomic.StoreInt32(&s.state, stateStopped)
 		return err
 	}
 
